@@ -129,6 +129,10 @@ def groups_extra(tier):
     for d in ('d1', 'd2', 'plain', 'r1, r2'):
         for path in ('ordered-const:-1', 'ordered-const:2.5', 'ordered-const:1 + 1', 'ordered-const:-1, -7'):
             yield {'dir': d, 'path': path, 'cases': [{'cols': ci, 'fmt': fmt, 'limit': lim} for ci in (0, 1) for fmt in FORMATS for lim in (None, 2)]}
+    # no place to search at all (regexp roots that match nothing): the empty table in every format
+    for d in ("'nomatch.*' rx", "'nomatch.*' rx, 'zz[0-9]' rx"):
+        for path in ('stream', 'ordered'):
+            yield {'dir': d, 'path': path, 'cases': [{'cols': ci, 'fmt': fmt, 'limit': lim} for ci in (0, 1) for fmt in FORMATS for lim in (None, 2)]}
     # a column selected more than once
     for d in ('d1', 'd2', 'plain'):
         for path in ('stream', 'ordered', 'grouped'):
